@@ -150,3 +150,23 @@ def write_evidence(prop: str, ev: dict):
 def coq_string(s: str) -> str:
     """A Coq string literal for arbitrary bytes-as-latin1 text (only \" needs doubling)."""
     return '"' + s.replace('"', '""') + '"'
+
+
+def dec_value(v):
+    """temporal values travel through the JSON cases as {"$date": "YYYY-MM-DD"} / {"$datetime": iso}"""
+    import datetime
+    if isinstance(v, dict):
+        if "$date" in v:
+            return datetime.date.fromisoformat(v["$date"])
+        if "$datetime" in v:
+            return datetime.datetime.fromisoformat(v["$datetime"])
+    return v
+
+
+def enc_value(v):
+    import datetime
+    if isinstance(v, datetime.datetime):
+        return {"$datetime": v.isoformat()}
+    if isinstance(v, datetime.date):
+        return {"$date": v.isoformat()}
+    return v
